@@ -232,6 +232,11 @@ def run_unit(unit, repo='/repo', rlimit=None, seed=None, extra_args=(), timeout=
                        'text': src_line, 'rendered': d.get('rendered', '')})
       continue
     hard_errors.append(msg + (' @%d' % line if line else ''))
+  # vacuity canaries: functions named canary_must_fail* are expected to be refuted; they are not
+  # obligations.  A canary that verifies means the axioms / preconditions in scope are inconsistent.
+  is_canary = lambda fn: fn.split('::')[-1].startswith('canary_must_fail')
+  canary_failed = set(x['in_fn'] for x in failures if is_canary(x['in_fn']))
+  failures = [x for x in failures if not is_canary(x['in_fn'])]
   res['failures'] = failures
   funcs = []
   if out:
@@ -256,12 +261,19 @@ def run_unit(unit, repo='/repo', rlimit=None, seed=None, extra_args=(), timeout=
   fsucc = {}
   for fx in funcs:
     fsucc[fx['name']] = fsucc.get(fx['name'], True) and fx['success']
+  canaries = [f for f in fsucc if is_canary(f)]
+  res['canaries'] = {f: (not fsucc[f]) for f in canaries}
+  for f in canaries:
+    if fsucc[f]:
+      hard_errors.append('vacuity canary %s was verified: assumptions in scope are inconsistent' % f)
   for fname, ok in sorted(fsucc.items()):
-    if fname.endswith('::clone') or fname.endswith('::eq'):
+    if fname.endswith('::clone') or fname.endswith('::eq') or is_canary(fname):
       continue
     st = 'discharged' if ok else ('inconclusive' if fname in inconcl_fns and fname not in failed_fns else 'failed')
     obl.append({'name': fname + '::<body: safety, callee preconditions, termination>', 'fn': fname, 'status': st})
   for f, lab, k in labelled:
+    if is_canary(f):
+      continue
     nm = '%s::%s' % (f, lab)
     if nm in failed_names:
       st = 'failed'
@@ -282,7 +294,8 @@ def run_unit(unit, repo='/repo', rlimit=None, seed=None, extra_args=(), timeout=
   elif inconcl or any(o['status'] == 'inconclusive' for o in obl):
     res['status'] = 'inconclusive'
     res['diagnostic'] = '; '.join(x['message'] for x in inconcl[:5]) or 'labelled clause in a function Verus did not check'
-  elif out and out['verification-results'].get('success') and res.get('verified', 0) > 0:
+  elif out and res.get('verified', 0) > 0 and (out['verification-results'].get('success') or
+                                               (canaries and all(fx['success'] or is_canary(fx['name']) for fx in funcs))):
     res['status'] = 'ok'
   else:
     res['status'] = 'inconclusive'
